@@ -63,6 +63,7 @@ def sym_worker(pid, hname, config, tier):
     wall = h.wall_s if tier == "quick" else h.thorough_wall_s
     ctx = core.SymCtx(query_timeout_ms=h.query_timeout_ms, max_paths=h.max_paths, wall_s=wall, known=known)
     ctx.keep_uf = h.keep_uf
+    ctx.nonce_fork = getattr(h, "nonce_fork", True)
     if tier == "thorough":
         ctx.max_recorded_paths = 400
         ctx.record_stride = 3
